@@ -372,6 +372,9 @@ func genesisSites(fset *token.FileSet, m string, kfuncs map[string][]kfunc) {
 		work = work[1:]
 		for _, kf := range kfuncs[name] {
 			loopFilters(kf.decl.Body, func(kind, detail string) { add(name, kind, detail) })
+			if name == "ExportGenesis" || name == "InitGenesis" {
+				valueRewrites(kf.decl, func(kind, detail string) { add(name, kind, detail) })
+			}
 			ast.Inspect(kf.decl.Body, func(n ast.Node) bool {
 				switch x := n.(type) {
 				case *ast.SliceExpr:
@@ -532,4 +535,114 @@ func loopFilters(body *ast.BlockStmt, report func(kind, detail string)) {
 		})
 	}
 	walk(body, false, false, false, false)
+}
+
+func exprText(e ast.Expr) string {
+	switch x := e.(type) {
+	case *ast.Ident:
+		return x.Name
+	case *ast.SelectorExpr:
+		return exprText(x.X) + "." + x.Sel.Name
+	case *ast.IndexExpr:
+		return exprText(x.X) + "[..]"
+	case *ast.IndexListExpr:
+		return exprText(x.X) + "[..]"
+	case *ast.CallExpr:
+		return exprText(x.Fun) + "(..)"
+	case *ast.ParenExpr:
+		return "(" + exprText(x.X) + ")"
+	case *ast.StarExpr:
+		return "*" + exprText(x.X)
+	case *ast.FuncLit:
+		return "func literal"
+	case *ast.ArrayType:
+		return "[]" + exprText(x.Elt)
+	}
+	return fmt.Sprintf("%T", e)
+}
+
+func rootIdent(e ast.Expr) string {
+	for {
+		switch x := e.(type) {
+		case *ast.Ident:
+			return x.Name
+		case *ast.SelectorExpr:
+			e = x.X
+		case *ast.IndexExpr:
+			e = x.X
+		case *ast.ParenExpr:
+			e = x.X
+		case *ast.StarExpr:
+			e = x.X
+		case *ast.CallExpr:
+			e = x.Fun
+		default:
+			return ""
+		}
+	}
+}
+
+var harmlessBuiltins = map[string]bool{"len": true, "cap": true, "append": true, "panic": true, "make": true, "new": true, "copy": true, "delete": true}
+
+// valueRewrites: inside the body of ExportGenesis / InitGenesis itself a value should travel
+// unchanged between the GenesisState and the keeper.  Reported for review:
+//   * every call that is not a call on the keeper receiver (k.X(..), k.Coll.X(..)), not a builtin
+//     and not the construction of the default genesis - i.e. any helper, conversion, parser,
+//     sorter or sanitizer applied on the way (detail = the callee);
+//   * every assignment to a field of the genesis-state parameter or of a loop variable
+//     (the element is modified before it is stored).
+func valueRewrites(fd *ast.FuncDecl, report func(kind, detail string)) {
+	recv := ""
+	if fd.Recv != nil && len(fd.Recv.List) == 1 && len(fd.Recv.List[0].Names) == 1 {
+		recv = fd.Recv.List[0].Names[0].Name
+	}
+	params := map[string]bool{}
+	for _, p := range fd.Type.Params.List {
+		for _, n := range p.Names {
+			params[n.Name] = true
+		}
+	}
+	loopVars := map[string]bool{}
+	ast.Inspect(fd.Body, func(n ast.Node) bool {
+		if r, ok := n.(*ast.RangeStmt); ok {
+			for _, e := range []ast.Expr{r.Key, r.Value} {
+				if id, ok := e.(*ast.Ident); ok && id.Name != "_" {
+					loopVars[id.Name] = true
+				}
+			}
+		}
+		return true
+	})
+	ast.Inspect(fd.Body, func(n ast.Node) bool {
+		switch x := n.(type) {
+		case *ast.CallExpr:
+			root := rootIdent(x.Fun)
+			text := exprText(x.Fun)
+			switch {
+			case recv != "" && root == recv:
+			case harmlessBuiltins[text]:
+			case strings.HasSuffix(text, ".DefaultGenesis") || strings.HasSuffix(text, ".NewGenesisState"):
+			default:
+				report("value-rewrite", "call of "+text)
+			}
+		case *ast.AssignStmt:
+			for _, l := range x.Lhs {
+				if _, isSel := l.(*ast.SelectorExpr); !isSel {
+					if _, isIdx := l.(*ast.IndexExpr); !isIdx {
+						continue
+					}
+				}
+				root := rootIdent(l)
+				if (params[root] && root != "ctx") || loopVars[root] {
+					report("value-rewrite", "assignment to "+exprText(l))
+				}
+			}
+		case *ast.IncDecStmt:
+			root := rootIdent(x.X)
+			if params[root] || loopVars[root] {
+				report("value-rewrite", "assignment to "+exprText(x.X))
+			}
+		}
+		return true
+	})
 }
